@@ -65,6 +65,12 @@ class SimLock:
                 return True
             if not blocking:
                 return False
+            if timeout is not None and timeout >= 0:
+                # a *timed* acquire while the owner is held by the schedule: simulated time jumps,
+                # the timeout fires (the property's schedule keeps the owner paused until the
+                # other call has completed, however long that takes)
+                sched.lock_timeouts += 1
+                return False
             # contended: hand control to whoever owns the lock
             sched.blocked(me[1], self)
 
@@ -157,6 +163,7 @@ class Scheduler:
         self.block_events = []
         self.threads = []
         self.log = []  # (tid, steps run in this segment, why it stopped)
+        self.lock_timeouts = 0
         # tracing is only needed while a thread can still be pre-empted: after its last
         # planned segment (or if the plan never mentions it) it runs untraced
         self.remaining = [sum(1 for t, _ in self.plan if t == i) for i in range(n)]
